@@ -4995,9 +4995,13 @@ func (t *Terminal) Loop() error {
 					case reqPreviewRefresh:
 						t.printPreview()
 					case reqPreviewDelayed:
-						t.previewer.version = value.(int64)
-						t.previewer.pending = true
-						t.printPreviewDelayed()
+						// Not if the output of that command has been displayed in
+						// the meantime (both requests can be in the same batch)
+						if version := value.(int64); version > t.previewer.version {
+							t.previewer.version = version
+							t.previewer.pending = true
+							t.printPreviewDelayed()
+						}
 					case reqPrintQuery:
 						exit(func() int {
 							t.printer(string(t.input))
